@@ -326,6 +326,77 @@ pub mod linear {
     }
 }
 
+// ---------------------------------------------------------------- R-LINEAR (follow) / R-SINK / R-SEQ
+pub mod tasks {
+    use std::collections::VecDeque;
+    pub trait Job {
+        fn movable(&self) -> bool;
+    }
+    pub struct Q {
+        pub local: VecDeque<Box<dyn Job>>,
+        pub shared: VecDeque<Box<dyn Job>>,
+        pub cap: usize,
+    }
+    impl Q {
+        pub fn push(&mut self, j: Box<dyn Job>) -> Result<(), String> {
+            if self.local.len() >= self.cap {
+                return Err("full".to_string());
+            }
+            self.local.push_back(j);
+            Ok(())
+        }
+        pub fn bad_balance(&mut self) {
+            for _ in 0..2 {
+                let Some(j) = self.local.pop_back() else {
+                    break;
+                };
+                if !j.movable() {
+                    break;
+                }
+                self.shared.push_back(j);
+            }
+        }
+        pub fn ok_balance(&mut self) {
+            for _ in 0..2 {
+                if let Some(j) = self.local.pop_back() {
+                    if j.movable() {
+                        self.shared.push_back(j);
+                    } else {
+                        self.local.push_back(j);
+                        break;
+                    }
+                }
+            }
+        }
+        pub fn bad_refill(&mut self, more: Vec<Box<dyn Job>>) {
+            for j in more {
+                let _ = self.push(j);
+            }
+        }
+        pub fn ok_refill(&mut self, more: Vec<Box<dyn Job>>) -> Result<(), String> {
+            for j in more {
+                self.push(j)?;
+            }
+            Ok(())
+        }
+    }
+    pub struct Stream<T>(pub Vec<T>);
+    impl<T> Stream<T> {
+        pub fn buffer_unordered(self, _n: usize) -> Vec<T> {
+            self.0
+        }
+        pub fn buffered(self, _n: usize) -> Vec<T> {
+            self.0
+        }
+    }
+    pub fn bad_map(xs: Vec<u32>) -> Result<Vec<u32>, String> {
+        Ok(Stream(xs).buffer_unordered(4))
+    }
+    pub fn ok_map(xs: Vec<u32>) -> Result<Vec<u32>, String> {
+        Ok(Stream(xs).buffered(4))
+    }
+}
+
 // ---------------------------------------------------------------- R-MISS
 pub mod miss {
     use super::*;
